@@ -96,8 +96,9 @@ def model_class(cls_names):
 
 def build_model(ms, span):
     M = model_class(ms['cls'])
-    init = {n: cells(ms['ser'][n]['v'], 'f') for n in ms['cls']}
-    mdl = M(span, **init)
+    cdt = ms.get('cdt', 'f')
+    init = {n: cells(ms['ser'][n]['v'], cdt) for n in ms['cls']}
+    mdl = M(span, **init) if cdt == 'f' else M(span, dtype=DTYPES[cdt], **init)
     for n in ms['names'][len(ms['cls']):]:
         s = ms['ser'][n]
         mdl.add_variable(n, cells(s['v'], s['dt']), dtype=DTYPES[s['dt']])
@@ -228,7 +229,7 @@ def run_model(rec, idx):
     data = df[rec['data']['columns']]
     M = model_class(m0['cls'])
     try:
-        back = M.from_dataframe(data)
+        back = M.from_dataframe(data) if m0.get('cdt', 'f') == 'f' else M.from_dataframe(data, dtype=DTYPES[m0['cdt']])
     except Exception as e:
         diffs.append({'where': 'from_dataframe', 'what': 'exception', 'got': f'{type(e).__name__}: {e}'[:300]})
         return diffs
